@@ -1,2 +1,317 @@
-(* C14 placeholder; theorems follow *)
-From AV Require Import Lib.Base Ws.Mask Ws.Frame Ws.Codec Ws.Stream Ws.Handshake.
+(* C14 — WebSocket handshake and frame codec: round-trip, segmentation-free, strict.
+   Only statements here; proofs live in Ws/*Proofs.v. The model is of the code after the repairs
+   fixes/F5.patch (oversize frame refused before it is buffered) and fixes/F6.patch (FIN data frame
+   inside a fragmented message refused). [lossy] stands for String::from_utf8_lossy. *)
+From AV Require Import Lib.Base Gen.Consts Ws.Mask Ws.MaskProofs Ws.MaskFast Ws.Frame Ws.FrameProofs
+  Ws.Codec Ws.ParseProofs Ws.Stream Ws.StreamProofs Ws.MoreProofs Ws.Handshake Ws.HandshakeProofs
+  Ws.FrameSpec Ws.SpecProofs Ws.HdrProofs Ws.RoundProofs Ws.DeliverProofs Ws.RoundTrip Ws.OversizeProofs Ws.RoundTripSeq.
+
+(* ---------------- masking ---------------- *)
+
+(* unmasking undoes masking, for every buffer and every key (no bound on the bytes needed) *)
+Theorem C14_mask_involutive : forall (buf key : bytes), apply_mask (apply_mask buf key) key = buf.
+Proof. exact apply_mask_involutive. Qed.
+
+(* the word-wise fast path (little-endian) computes the byte-wise XOR whatever `align_to_mut`
+   returns: prefix of any length p, any number k of 32-bit words, rest as suffix *)
+Theorem C14_mask_fast_eq_bytewise : forall (p k : nat) (buf : bytes) (m0 m1 m2 m3 : N),
+  m0 < 256 -> m1 < 256 -> m2 < 256 -> m3 < 256 -> Forall (fun b => b < 256) buf ->
+  (p + 4 * k <= length buf)%nat ->
+  apply_mask_fast32 p k buf [m0; m1; m2; m3] = apply_mask_fallback buf [m0; m1; m2; m3].
+Proof. exact fast32_eq_fallback. Qed.
+
+Example C14_mask_example :
+  apply_mask_fast32 3 2 [243; 0; 1; 2; 3; 128; 129; 130; 255; 254; 0; 23; 116] [109; 182; 178; 128] =
+  apply_mask_fallback [243; 0; 1; 2; 3; 128; 129; 130; 255; 254; 0; 23; 116] [109; 182; 178; 128] /\
+  apply_mask_fallback [243; 0; 1; 2; 3] [109; 182; 178; 128] = [158; 182; 179; 130; 110].
+Proof. vm_compute. split; reflexivity. Qed.
+
+(* ---------------- no panic ---------------- *)
+
+(* every index, slice, advance and split_to of parse_metadata / parse / decode is in range *)
+Theorem C14_decode_never_panics : forall lossy (c : codec) (src : bytes), decode lossy c src <> Panic.
+Proof. exact decode_never_panics. Qed.
+
+Theorem C14_parse_never_panics : forall (src : bytes) (server : bool) (max_size : N),
+  parse src server max_size <> Panic.
+Proof. exact parse_never_panics. Qed.
+
+(* ---------------- segmentation independence ---------------- *)
+
+(* Feeding the decoder any split of the byte stream (each read appended to the buffer, `decode`
+   called until it asks for more, stop at the first error) yields the frames, the final error or
+   the held residue and codec state of decoding the whole stream at once. *)
+Theorem C14_segmentation : forall lossy (c : codec) (segs : list bytes),
+  feed lossy c [] segs = run_all lossy c (concat segs).
+Proof. exact segmentation_independent. Qed.
+
+(* the decoding loop always ends with "need more" or a protocol error: no panic, fuel suffices *)
+Theorem C14_run_terminates : forall lossy (c : codec) (buf : bytes),
+  match snd (run_all lossy c buf) with EMore _ _ | EErr _ => True | _ => False end.
+Proof. intros. apply (run_all_ends lossy (S (length buf))). lia. Qed.
+
+(* frames are atomic: if the decoder delivers a frame from [whole] leaving [rest], then on every
+   shorter prefix of the frame's bytes it answers "need more" (and consumes nothing: DNone) *)
+Theorem C14_partial_frame_needs_more : forall lossy c whole fr c' rest n,
+  decode lossy c whole = Val (DFrame fr c' rest) -> (n + length rest < length whole)%nat ->
+  decode lossy c (firstn n whole) = Val DNone.
+Proof.
+  intros lossy c whole fr c' rest n H Hn. rewrite decode_dd in *. injection H as H.
+  f_equal. eapply partial_frame_needs_more; eauto.
+Qed.
+
+(* a delivered frame is followed by exactly the unconsumed suffix, and consumes at least 2 bytes *)
+Theorem C14_frame_consumes_prefix : forall lossy c src fr c' rest,
+  decode lossy c src = Val (DFrame fr c' rest) ->
+  (exists consumed, src = consumed ++ rest) /\ lenN rest + 2 <= lenN src.
+Proof.
+  intros lossy c src fr c' rest H. rewrite decode_dd in H. injection H as H.
+  apply dd_progress in H as (H1 & H2 & _). auto.
+Qed.
+
+Example C14_segmentation_example :
+  let c := with_max_size (client_mode codec_new) 16 in
+  let stream := [129; 2; 104; 105; 1; 1; 97; 137; 0; 128; 1; 98] in
+  run_all (fun d => d) c stream =
+    ([FText [104; 105]; FContinuation (FirstText [97]); FPing []; FContinuation (Last [98])],
+     EMore c []) /\
+  feed (fun d => d) c [] [[129]; [2; 104]; [105; 1; 1; 97; 137]; [0; 128; 1]; [98]] =
+  run_all (fun d => d) c stream.
+Proof. vm_compute. split; reflexivity. Qed.
+
+(* ---------------- max_size ---------------- *)
+
+(* no delivered payload exceeds max_size *)
+Theorem C14_max_size : forall lossy c src f c' rest b,
+  decode lossy c src = Val (DFrame f c' rest) -> frame_data f = Some b -> lenN b <= c_max c.
+Proof.
+  intros lossy c src f c' rest b H. rewrite decode_dd in H. injection H as H.
+  eapply delivered_within_max; eauto.
+Qed.
+
+(* the payload a Close frame is parsed from is within max_size and 125 bytes *)
+Theorem C14_close_payload_bounded : forall src server max_size fin pl rest,
+  parse src server max_size = Val (PFrame fin OpClose (Some pl) rest) ->
+  lenN pl <= max_size /\ lenN pl <= 125.
+Proof.
+  intros src server max_size fin pl rest H. rewrite parse_pp in H. injection H as H.
+  eapply close_within_max; eauto.
+Qed.
+
+(* a frame announcing more than max_size is refused as soon as its header is there, whatever
+   follows it (nothing, part of the payload, all of it): it is not buffered first (was F5) *)
+Theorem C14_oversize_refused_before_buffering : forall lossy c (h : fhdr) (tail : bytes),
+  hdr_ok h -> is_some (h_key h) = c_server c -> opcode_known (h_op h) = true ->
+  c_max c < h_len h ->
+  exists r, decode lossy c (hdr_bytes h ++ tail) = Val (DErr Overflow c r).
+Proof.
+  intros lossy c h tail H1 H2 H3 H4. destruct (oversize_refused lossy c h tail H1 H2 H3 H4) as (r & E).
+  exists r. rewrite decode_dd, E. reflexivity.
+Qed.
+
+(* ---------------- strictness ---------------- *)
+
+(* [hdr_bytes h] is the RFC 6455 section 5.2 header for ANY field values (FIN, RSV, 4-bit opcode,
+   optional key, any of the three length forms); [frame_legal server open max h] is the
+   property's list: masking fits the role, opcode known, control frames unfragmented and at most
+   125 bytes, Continue only inside / Text and Binary only outside a fragmented message, length
+   within max_size. Every complete frame outside that list is refused, except for the known
+   class F6b (Close frame announcing more than 125 bytes). *)
+Theorem C14_strict_illegal_frame_refused : forall lossy c (h : fhdr) (wire rest : bytes),
+  hdr_ok h -> lenN wire = h_len h -> h_len h < 2 ^ 63 ->
+  frame_legal (c_server c) (c_cont c) (c_max c) h = false -> close_overlong h = false ->
+  exists e c' r, decode lossy c (hdr_bytes h ++ wire ++ rest) = Val (DErr e c' r).
+Proof.
+  intros lossy c h wire rest H1 H2 H3 H4 H5.
+  destruct (illegal_frame_refused lossy c h wire rest H1 H2 H3 H4 H5) as (e & c' & r & E).
+  exists e, c', r. rewrite decode_dd, E. reflexivity.
+Qed.
+
+(* F6b (deliberate upstream behaviour): an over-long Close frame is illegal but delivered as
+   Close(None) *)
+Theorem C14_refuted_close_overlong : exists lossy c (h : fhdr) (wire rest : bytes),
+  hdr_ok h /\ lenN wire = h_len h /\ h_len h < 2 ^ 63 /\
+  frame_legal (c_server c) (c_cont c) (c_max c) h = false /\ close_overlong h = true /\
+  decode lossy c (hdr_bytes h ++ wire ++ rest) = Val (DFrame (FClose None) c rest).
+Proof.
+  exists (fun d => d), (client_mode codec_new), (mkHdr true 0 8 None L16 126), (repeat 0 126), [7].
+  unfold hdr_ok. cbn [h_rsv h_op h_key h_lform h_len].
+  repeat split; try lia; try (vm_compute; reflexivity).
+Qed.
+
+(* wrong masking and reserved opcodes are refused from the first two bytes on, nothing consumed *)
+Theorem C14_wrong_mask_refused : forall lossy c (h : fhdr) (tail : bytes),
+  hdr_ok h -> is_some (h_key h) <> c_server c ->
+  decode lossy c (hdr_bytes h ++ tail) =
+  Val (DErr (if c_server c then UnmaskedFrame else MaskedFrame) c (hdr_bytes h ++ tail)).
+Proof. intros. rewrite decode_dd, dd_wrong_mask by assumption. reflexivity. Qed.
+
+Theorem C14_reserved_opcode_refused : forall lossy c (h : fhdr) (tail : bytes),
+  hdr_ok h -> is_some (h_key h) = c_server c -> opcode_known (h_op h) = false ->
+  decode lossy c (hdr_bytes h ++ tail) = Val (DErr (InvalidOpcode (h_op h)) c (hdr_bytes h ++ tail)).
+Proof. intros. rewrite decode_dd, dd_bad_opcode by assumption. reflexivity. Qed.
+
+(* conversely every legal frame is delivered, unmasked, with exactly the rest left; the
+   "fragmented message open" flag follows the frame *)
+Theorem C14_legal_frame_delivered : forall lossy c (h : fhdr) (wire rest : bytes),
+  hdr_ok h -> lenN wire = h_len h -> h_len h < 2 ^ 63 ->
+  frame_legal (c_server c) (c_cont c) (c_max c) h = true ->
+  decode lossy c (hdr_bytes h ++ wire ++ rest) =
+  Val (DFrame (frame_of_hdr lossy h (unmask (h_key h) wire)) (set_cont c (open_after h (c_cont c))) rest).
+Proof. intros. rewrite decode_dd, legal_frame_delivered by assumption. reflexivity. Qed.
+
+Example C14_strict_example :
+  let c := with_max_size codec_new 1000 in                      (* server *)
+  let key := [1; 2; 3; 4] in
+  (* unfinished Ping, masked *)
+  frame_legal true false 1000 (mkHdr false 0 9 (Some key) L7 0) = false /\
+  decode (fun d => d) c (hdr_bytes (mkHdr false 0 9 (Some key) L7 0) ++ []) =
+    Val (DErr (ContinuationFragment OpPing) c []) /\
+  (* Continue without start, non-minimal 16-bit length form, RSV bits set *)
+  decode (fun d => d) c (hdr_bytes (mkHdr true 5 0 (Some key) L16 1) ++ [9]) =
+    Val (DErr ContinuationNotStarted c []) /\
+  (* FIN Text inside a fragmented message (was F6) *)
+  decode (fun d => d) (set_cont c true) (hdr_bytes (mkHdr true 0 1 (Some key) L7 1) ++ [9]) =
+    Val (DErr ContinuationStarted (set_cont c true) []).
+Proof. vm_compute. repeat split; reflexivity. Qed.
+
+(* ---------------- round trip ---------------- *)
+
+(* Every message one role encodes (any mask key the RNG returns) is decoded by the peer role,
+   from the front of whatever follows, as the same message ([frame_of_message]: same payload
+   bytes, same kind; Nop writes nothing), provided the sender respects what any RFC 6455 receiver
+   demands ([sendable]: payload within the peer's max_size, control payloads <= 125, no new data
+   message while a fragmented one is open); the fragmentation flags of the two codecs stay in step. *)
+Theorem C14_roundtrip : forall lossy (enc dec : codec) (m : message) (key rest : bytes) enc' out,
+  c_server dec = negb (c_server enc) -> c_cont dec = c_wcont enc -> length key = 4%nat ->
+  sendable (c_wcont enc) (c_max dec) m ->
+  encode enc m [] key = (enc', Ok out) ->
+  match frame_of_message lossy m with
+  | None => out = []
+  | Some f => decode lossy dec (out ++ rest) = Val (DFrame f (set_cont dec (c_wcont enc')) rest)
+  end.
+Proof.
+  intros lossy enc dec m key rest enc' out H1 H2 H3 H4 H5.
+  pose proof (roundtrip_one lossy enc dec m key rest enc' out H1 H2 H3 H4 H5) as H.
+  destruct (frame_of_message lossy m); [rewrite decode_dd, H; reflexivity|exact H].
+Qed.
+
+(* a whole conversation: the concatenated output of encoding any list of messages (each with its
+   own mask key; messages the encoder refuses write nothing) is decoded by the peer, HOWEVER THE
+   BYTES ARE SPLIT ACROSS READS, as exactly the accepted messages in order, ending with an empty
+   buffer and the fragmentation flags in step *)
+Theorem C14_roundtrip_conversation : forall lossy (ms : list (message * bytes)) (enc dec : codec)
+  (segs : list bytes),
+  c_server dec = negb (c_server enc) -> c_cont dec = c_wcont enc ->
+  all_sendable enc (c_max dec) ms ->
+  let '(enc', stream, _) := encode_all enc ms in
+  concat segs = stream ->
+  feed lossy dec [] segs = (expected_frames lossy enc ms, EMore (set_cont dec (c_wcont enc')) []).
+Proof.
+  intros lossy ms enc dec segs H1 H2 H3.
+  pose proof (roundtrip_all lossy ms enc dec H1 H2 H3) as H.
+  destruct (encode_all enc ms) as ((enc', stream), outs). intro Hc.
+  rewrite segmentation_independent, Hc. exact H.
+Qed.
+
+Example C14_conversation_example :
+  let enc := codec_new in let dec := client_mode codec_new in
+  let ms := [(MsgContinuation (FirstText [104]), [0; 0; 0; 0]); (MsgPing [], [0; 0; 0; 0]);
+             (MsgContinuation (FirstText [1]), [0; 0; 0; 0]);          (* refused by the encoder *)
+             (MsgNop, [0; 0; 0; 0]); (MsgContinuation (Last [105; 33]), [0; 0; 0; 0])] in
+  all_sendable enc (c_max dec) ms /\
+  expected_frames (fun d => d) enc ms =
+    [FContinuation (FirstText [104]); FPing []; FContinuation (Last [105; 33])] /\
+  snd (fst (encode_all enc ms)) = [1; 1; 104; 137; 0; 128; 2; 105; 33].
+Proof.
+  cbv zeta. split; [|vm_compute; split; reflexivity].
+  cbn [all_sendable encode fst c_wcont codec_new set_wcont]. unfold sendable.
+  cbn [message_payload]. change (2 ^ 63) with 9223372036854775808.
+  repeat split; try reflexivity; try (vm_compute; discriminate); try lia.
+Qed.
+
+(* the writer uses the 7-bit, 16-bit and 64-bit length forms exactly at the RFC boundaries, and
+   what it writes is the RFC layout *)
+Theorem C14_writer_layout : forall (dst payload : bytes) (op : opcode) (fin mask : bool) (key : bytes),
+  lenN payload < 2 ^ 64 ->
+  write_message dst payload op fin mask key =
+  dst ++ hdr_bytes (wire_hdr payload op fin mask key) ++ (if mask then apply_mask payload key else payload).
+Proof. exact write_message_spec. Qed.
+
+(* lengths 125 / 126 / 65535 / 65536: instances of the theorem, for every payload of that length *)
+Corollary C14_roundtrip_length_boundaries : forall lossy (enc dec : codec) (payload key rest : bytes),
+  c_server dec = negb (c_server enc) -> c_cont dec = false -> c_wcont enc = false -> length key = 4%nat ->
+  (lenN payload = 125 \/ lenN payload = 126 \/ lenN payload = 65535 \/ lenN payload = 65536) ->
+  lenN payload <= c_max dec ->
+  decode lossy dec (write_message [] payload OpBinary true (negb (c_server enc)) key ++ rest) =
+  Val (DFrame (FBinary payload) dec rest).
+Proof.
+  intros lossy enc dec payload key rest H1 H2 H3 H4 H5 H6.
+  pose proof (C14_roundtrip lossy enc dec (MsgBinary payload) key rest enc
+                (write_message [] payload OpBinary true (negb (c_server enc)) key)) as H.
+  cbn [frame_of_message] in H. rewrite H; try assumption; try reflexivity.
+  - rewrite H3. destruct dec; cbn in *; subst; reflexivity.
+  - congruence.
+  - unfold sendable. cbn [message_payload]. change (2 ^ 63) with 9223372036854775808.
+    split; [assumption|]. split; [lia|assumption].
+Qed.
+
+Example C14_length_forms :
+  minimal_form 125 = L7 /\ minimal_form 126 = L16 /\ minimal_form 65535 = L16 /\ minimal_form 65536 = L64.
+Proof. vm_compute. repeat split; reflexivity. Qed.
+
+Example C14_roundtrip_example :
+  let enc := client_mode codec_new in let dec := codec_new in
+  let m := MsgClose (Some (1000, Some [98; 121; 101])) in
+  let key := [167; 3; 250; 17] in
+  sendable false 65536 m /\
+  fst (encode enc m [] key) = enc /\
+  decode (fun d => d) dec (match snd (encode enc m [] key) with Ok b => b | Err _ => [] end ++ [1; 2]) =
+    Val (DFrame (FClose (Some (1000, Some [98; 121; 101]))) dec [1; 2]).
+Proof.
+  cbv zeta. split; [|vm_compute; split; reflexivity].
+  unfold sendable. cbn [message_payload fst]. change (2 ^ 63) with 9223372036854775808.
+  repeat split; try (vm_compute; discriminate); try lia; vm_compute; reflexivity.
+Qed.
+
+(* ---------------- handshake ---------------- *)
+
+(* verify_handshake accepts exactly the well-formed upgrade requests: GET, first Upgrade value
+   visible ASCII containing "websocket" (any case), first Connection value containing "upgrade",
+   first Sec-WebSocket-Version value 13, 8 or 7, a Sec-WebSocket-Key present (its content is not
+   examined by the code) *)
+Theorem C14_handshake_accepts_exactly_wellformed : forall (method : bytes) (h : headers),
+  verify_handshake method h = None <-> wellformed method h.
+Proof. exact handshake_ok_iff. Qed.
+
+(* the error names the first part that is missing *)
+Theorem C14_handshake_error_order : forall method h e, verify_handshake method h = Some e ->
+  match e with
+  | GetMethodRequired => method <> s_get
+  | NoWebsocketUpgrade => method = s_get /\ ~ first_value_has s_upgrade s_websocket h
+  | NoConnectionUpgrade => first_value_has s_upgrade s_websocket h /\ ~ first_value_has s_connection s_upgrade h
+  | NoVersionHeader => first_value_has s_connection s_upgrade h /\ hget s_version h = None
+  | UnsupportedVersion => exists v, hget s_version h = Some v /\ v <> [49; 51] /\ v <> [56] /\ v <> [55]
+  | BadWebsocketKey => hget s_key h = None
+  end.
+Proof. exact handshake_err_order. Qed.
+
+Example C14_handshake_example :
+  let h := [([104; 111; 115; 116], [120]);
+            (s_upgrade, [87; 101; 98; 83; 111; 99; 107; 101; 116]);          (* "WebSocket" *)
+            (s_connection, [107; 101; 101; 112; 45; 97; 108; 105; 118; 101; 44; 32; 85; 112; 103; 114; 97; 100; 101]);
+            (s_version, [49; 51]); (s_key, [120; 61])] in
+  verify_handshake s_get h = None /\ wellformed s_get h /\
+  verify_handshake s_get (removelast h) = Some BadWebsocketKey /\
+  verify_handshake [80; 79; 83; 84] h = Some GetMethodRequired.
+Proof.
+  cbv zeta. repeat split; try (vm_compute; reflexivity).
+  - exists [87; 101; 98; 83; 111; 99; 107; 101; 116]. vm_compute. repeat split; reflexivity.
+  - eexists. vm_compute. repeat split; reflexivity.
+  - eexists. split; [vm_compute; reflexivity|]. left. reflexivity.
+  - eexists. vm_compute. reflexivity.
+Qed.
+
+(* the default max_size of Codec::new() is the constant in the sources *)
+Example C14_default_max_size : c_max codec_new = WS_DEFAULT_MAX_SIZE.
+Proof. reflexivity. Qed.
